@@ -113,27 +113,39 @@ Lemma revert_unfold rid st :
                    (match rid with Some id => drop_req id l | None => l end, zk)).
 Proof. reflexivity. Qed.
 
+Lemma restore_cons_same k zr rev a : r_id a = k ->
+  restore ((k, zr) :: rev) a = if (zr =? 0)%N then [] else [set_zone zr a].
+Proof. intros E. unfold restore, al_get. cbn [find fst snd]. rewrite E, N.eqb_refl. reflexivity. Qed.
+
+Lemma restore_cons_other k zr rev a : r_id a <> k -> restore ((k, zr) :: rev) a = restore rev a.
+Proof.
+  intros E. unfold restore, al_get. cbn [find fst snd].
+  destruct (k =? r_id a)%N eqn:X; [apply N.eqb_eq in X; congruence|reflexivity].
+Qed.
+
+Lemma restore_nil a : restore [] a = [a].
+Proof. reflexivity. Qed.
+
 Lemma rev_fold_live rev : NoDup (keys rev) -> forall l zk,
   fst (fold_left rev_step rev (l, zk)) = flat_map (restore rev) l.
 Proof.
   induction rev as [|[k zr] rev IH]; intros ND l zk.
-  - cbn [fold_left fst]. unfold restore, al_get. cbn [find]. induction l as [|a l IHl]; [reflexivity|].
-    cbn [flat_map app]. f_equal. exact IHl.
+  - cbn [fold_left fst]. induction l as [|a l IHl]; [reflexivity|].
+    cbn [flat_map]. rewrite restore_nil. cbn [app]. f_equal. exact IHl.
   - cbn [keys map fst] in ND. inversion ND as [|? ? Hn ND']; subst. cbn [fold_left rev_step fst snd].
     assert (al_get k rev = None) as Hk.
     { unfold al_get. destruct (find (fun p => (fst p =? k)%N) rev) as [p|] eqn:F; [|reflexivity].
       apply find_some in F as [Hin E]. apply N.eqb_eq in E. exfalso. apply Hn. apply in_map_iff. exists p. auto. }
     destruct (zr =? 0)%N eqn:Ez.
     + rewrite IH by exact ND'. unfold drop_req. induction l as [|a l IHl]; [reflexivity|].
-      cbn [filter flat_map]. unfold restore at 2. unfold al_get. cbn [find fst snd].
-      destruct (k =? r_id a)%N eqn:E.
-      * rewrite N.eqb_sym in E. rewrite E. cbn [negb]. rewrite Ez. cbn [app]. exact IHl.
-      * rewrite N.eqb_sym in E. rewrite E. cbn [negb flat_map]. rewrite IHl. f_equal.
+      cbn [filter flat_map]. destruct (N.eq_dec (r_id a) k) as [E|E].
+      * rewrite (restore_cons_same _ _ _ _ E), Ez. apply N.eqb_eq in E. rewrite E. cbn [negb app]. exact IHl.
+      * rewrite (restore_cons_other _ _ _ _ E). apply N.eqb_neq in E. rewrite E. cbn [negb flat_map]. rewrite IHl. reflexivity.
     + rewrite IH by exact ND'. unfold move_req. induction l as [|a l IHl]; [reflexivity|].
-      cbn [map flat_map]. rewrite IHl. f_equal. unfold restore at 2. unfold al_get at 2. cbn [find fst snd].
-      destruct (r_id a =? k)%N eqn:E.
-      * rewrite N.eqb_sym, E. rewrite Ez. apply N.eqb_eq in E. unfold restore. rewrite set_zone_id, E, Hk. reflexivity.
-      * rewrite N.eqb_sym, E. reflexivity.
+      cbn [map flat_map]. rewrite IHl. f_equal. destruct (N.eq_dec (r_id a) k) as [E|E].
+      * rewrite (restore_cons_same _ _ _ _ E), Ez. pose proof E as E'. apply N.eqb_eq in E'. rewrite E'.
+        unfold restore. rewrite set_zone_id, E, Hk. reflexivity.
+      * rewrite (restore_cons_other _ _ _ _ E). apply N.eqb_neq in E. rewrite E. reflexivity.
 Qed.
 
 Lemma zk_add_member z l : zk_sorted l -> In z l -> zk_add z l = l.
@@ -153,9 +165,9 @@ Lemma rev_fold_zk rev : forall l zk, zk_sorted zk ->
 Proof.
   induction rev as [|[k zr] rev IH]; intros l zk S H; [reflexivity|].
   cbn [fold_left rev_step fst snd]. destruct (zr =? 0)%N eqn:Ez.
-  - apply IH; [exact S|]. intros k' z' Hin. apply H. right. exact Hin.
+  - apply IH; [exact S|]. intros k' z' Hin. apply (H k'). right. exact Hin.
   - apply N.eqb_neq in Ez. rewrite zk_add_member; [|exact S|eapply H; [left; reflexivity|exact Ez]].
-    apply IH; [exact S|]. intros k' z' Hin. apply H. right. exact Hin.
+    apply IH; [exact S|]. intros k' z' Hin. apply (H k'). right. exact Hin.
 Qed.
 
 (* what the journal knows about the start of the operation *)
@@ -223,6 +235,191 @@ Proof.
     + rewrite is_live_find in Lk. destruct (find_req k (live s)) as [q|] eqn:Fq; [|discriminate].
       rewrite (zone_of_find _ _ _ Fq) in JS. subst zr. apply I3. apply C. apply (find_req_some _ _ _ Fq).
     + rewrite (zone_of_notlive _ _ Lk) in JS. contradiction.
+Qed.
+
+(* ------------------------------------------------------------------ C06: failed Allocate, GetOffer *)
+
+Context (fx : fixes).
+
+Lemma state_eta s : mkState (live s) (zkeys s) (version s) = s.
+Proof. destruct s; reflexivity. Qed.
+
+Lemma cleanup_restored s zk : Inv s -> NoEmpty s -> zk_sorted zk -> (forall x, In x (zkeys s) -> In x zk) ->
+  cleanup (live s) zk = zkeys s.
+Proof.
+  intros [ND [S C]] NE S' I. apply sorted_ext; [apply filter_sorted; exact S'|exact S|].
+  intros x. rewrite cleanup_in. split.
+  - intros [_ [r [Hr <-]]]. apply C. exact Hr.
+  - intros Hx. split; [apply I; exact Hx|apply NE; exact Hx].
+Qed.
+
+Lemma alloc_core_err_noop s r l zk oc : Inv s -> NoEmpty s -> alloc_core ns ex s r = CErr l zk oc ->
+  l = live s /\ cleanup l zk = zkeys s.
+Proof.
+  intros I NE E. pose proof I as [ND [S C]]. pose proof (alloc_core_view ns ex s r ND) as V. rewrite E in V.
+  inversion V as [| |r1 st Hid Hl Hn M|]; subst.
+  - split; [reflexivity|]. apply cleanup_all. exact NE.
+  - pose proof (alloc_facts_of s r1 st I (eq_ind_r (fun i => is_live i (live s) = false) Hl Hid) Hn M) as F.
+    rewrite <- Hid. rewrite <- Hid in Hl.
+    destruct (revert_alloc s r1 st I Hl (mnz_land_nz _ _ Hn) F) as [E1 E2].
+    rewrite E1, E2. split; [reflexivity|].
+    destruct F as [_ [S3 [_ [I3 _]]] _]. apply cleanup_restored; assumption.
+Qed.
+
+(* a failed Allocate leaves the state exactly as it was *)
+Theorem allocate_fail_noop s r s' res : Inv s -> NoEmpty s ->
+  allocate ns ex fx s r = (s', res) -> rs_kind res <> KOk -> s' = s.
+Proof.
+  intros I NE H K. unfold allocate in H. destruct (alloc_core ns ex s r) as [st|l zk oc|] eqn:AC.
+  - injection H as <- <-. cbn in K. congruence.
+  - injection H as <- <-. destruct (alloc_core_err_noop _ _ _ _ _ I NE AC) as [-> ->]. apply state_eta.
+  - injection H as <- <-. reflexivity.
+Qed.
+
+(* GetOffer never changes the state (with the cleanup of fix F2 in place) *)
+Theorem get_offer_pure s r s' res o : Inv s -> NoEmpty s -> fx_F2g fx = true ->
+  get_offer ns ex fx s r = (s', res, o) -> s' = s.
+Proof.
+  intros I NE F2 H. unfold get_offer in H. rewrite F2 in H. cbn [clean_if] in H.
+  destruct (alloc_core ns ex s r) as [st|l zk oc|] eqn:AC.
+  - pose proof I as [ND [S C]]. pose proof (alloc_core_view ns ex s r ND) as V. rewrite AC in V.
+    inversion V as [|r1 st0 Hid _ _ _ Hl Hn M R| |]; subst.
+    rewrite <- Hid in Hl.
+    pose proof (alloc_facts_of s r1 st I Hl Hn M) as F.
+    destruct (revert_alloc s r1 st I Hl (mnz_land_nz _ _ Hn) F) as [E1 E2].
+    rewrite <- Hid in H. destruct (revert (Some (r_id r1)) st) as [l zk]. cbn [fst snd] in E1, E2. subst l zk.
+    injection H as <- _ _. destruct F as [_ [S3 [_ [I3 _]]] _].
+    rewrite cleanup_restored by assumption. apply state_eta.
+  - injection H as <- _ _. destruct (alloc_core_err_noop _ _ _ _ _ I NE AC) as [-> ->]. apply state_eta.
+  - injection H as <- _ _. reflexivity.
+Qed.
+
+(* ------------------------------------------------------------------ C07: a successful Allocate *)
+
+Lemma allocate_ok_view s r s' res : Inv s -> allocate ns ex fx s r = (s', res) -> rs_kind res = KOk ->
+  exists r1 st,
+    r_id r1 = r_id r /\ r_size r1 = r_size r /\ r_prio r1 = r_prio r /\ r_strict r1 = r_strict r /\
+    is_live (r_id r) (live s) = false /\ mnz (N.land (r_zone r1) (m_normal ns)) = true /\
+    alloc_facts s r1 st /\ resolved ns (r_zone r1) st /\
+    s' = mkState (o_live st) (cleanup (o_live st) (o_zk st)) (bump (fx_F1a fx) (version s)) /\
+    rs_zone res = zone_of (r_id r) (o_live st) /\ rs_upd res = al_del (r_id r) (o_upd st).
+Proof.
+  intros I H K. pose proof I as [ND _]. pose proof (alloc_core_view ns ex s r ND) as V.
+  unfold allocate in H. destruct (alloc_core ns ex s r) as [st|l zk oc|] eqn:AC.
+  - inversion V as [|r1 st0 Hid Hsz Hpr Hst Hl Hn M R| |]; subst. injection H as <- <-.
+    exists r1, st. pose proof Hl as Hl'. rewrite <- Hid in Hl'.
+    pose proof (alloc_facts_of s r1 st I Hl' Hn M) as F.
+    split; [exact Hid|]. split; [exact Hsz|]. split; [exact Hpr|]. split; [exact Hst|]. split; [exact Hl|].
+    split; [exact Hn|]. split; [exact F|]. split; [exact R|]. split; [reflexivity|]. split; reflexivity.
+  - injection H as <- <-. cbn in K. discriminate.
+  - injection H as <- <-. cbn in K. discriminate.
+Qed.
+
+(* invariants of the state are kept *)
+Lemma after_alloc_inv l zk : ids_nodup l -> zk_sorted zk -> (forall r, In r l -> In (r_zone r) zk) ->
+  (forall r, In r l -> r_zone r <> 0%N) ->
+  forall v, Inv (mkState l (cleanup l zk) v) /\ NoEmpty (mkState l (cleanup l zk) v).
+Proof.
+  intros ND S C Z v. split.
+  - split; [exact ND|]. split; [apply filter_sorted; exact S|]. cbn [live zkeys]. intros r Hr.
+    split; [apply Z; exact Hr|]. apply cleanup_in. split; [apply C; exact Hr|]. exists r. auto.
+  - intros z Hz. cbn [live zkeys] in *. apply cleanup_in in Hz. tauto.
+Qed.
+
+Lemma mv_zone_nz r r' : mv r r' -> r_zone r <> 0%N -> r_zone r' <> 0%N.
+Proof.
+  intros [_ [S _]] H E. apply H. rewrite E in S. apply msub_antisym; [exact S|].
+  apply msub_spec. intros i Hi. rewrite N.bits_0 in Hi. discriminate.
+Qed.
+
+Theorem allocate_ok_inv s r s' res : Inv s -> allocate ns ex fx s r = (s', res) -> rs_kind res = KOk ->
+  Inv s' /\ NoEmpty s'.
+Proof.
+  intros I H K. destruct (allocate_ok_view _ _ _ _ I H K) as [r1 [st [Hid [_ [_ [_ [Hl [Hn [[[ND' L] [S3 [C3 _]] _] [_ [-> _]]]]]]]]]]].
+  apply after_alloc_inv; [exact ND'|exact S3|exact C3|].
+  intros q' Hq'. destruct (lmoves_in_r _ _ _ L Hq') as [q [Hq Hm]]. eapply mv_zone_nz; [exact Hm|].
+  destruct I as [_ [_ C]]. apply in_app_or in Hq as [Hq|[<-|[]]]; [apply C; exact Hq|eapply mnz_land_nz; exact Hn].
+Qed.
+
+(* existing allocations only move to supersets, keep all their attributes, and move only if their
+   priority is at most Preserved (so reservations never move) *)
+Theorem allocate_moves s r s' res : Inv s -> allocate ns ex fx s r = (s', res) -> rs_kind res = KOk ->
+  forall q, In q (live s) ->
+    exists q', find_req (r_id q) (live s') = Some q' /\ q' = set_zone (r_zone q') q /\
+               msub (r_zone q) (r_zone q') = true /\ (r_zone q' <> r_zone q -> r_prio q <= LM_Preserved).
+Proof.
+  intros I H K q Hq. destruct (allocate_ok_view _ _ _ _ I H K) as [r1 [st [_ [_ [_ [_ [_ [_ [[[ND' L] _ _] [_ [-> _]]]]]]]]]]].
+  cbn [live]. destruct I as [ND _].
+  assert (find_req (r_id q) (live s ++ [r1]) = Some q) as F.
+  { rewrite find_req_app, (find_req_in _ ND _ Hq). reflexivity. }
+  destruct (lmoves_find _ _ _ _ L F) as [q' [F' Hm]]. exists q'. split; [exact F'|exact Hm].
+Qed.
+
+(* the requester is assigned exactly the returned zone; it contains a normal-memory node, and
+   so does every zone anything was moved to *)
+Theorem allocate_normal s r s' res : Inv s -> NormalOK s -> allocate ns ex fx s r = (s', res) -> rs_kind res = KOk ->
+  NormalOK s' /\ zone_of (r_id r) (live s') = rs_zone res /\ is_live (r_id r) (live s') = true.
+Proof.
+  intros I NO H K. destruct (allocate_ok_view _ _ _ _ I H K) as [r1 [st [Hid [_ [_ [_ [Hl [Hn [[[ND' L] _ _] [_ [-> [Ez _]]]]]]]]]]]].
+  cbn [live]. split; [|split; [symmetry; exact Ez|]].
+  - intros q' Hq'. destruct (lmoves_in_r _ _ _ L Hq') as [q [Hq [_ [S _]]]].
+    eapply mnz_land_mono; [exact S|]. apply in_app_or in Hq as [Hq|[<-|[]]]; [apply NO; exact Hq|exact Hn].
+  - assert (find_req (r_id r) (live s ++ [r1]) = Some r1) as F.
+    { rewrite find_req_app. rewrite is_live_find in Hl. destruct (find_req (r_id r) (live s)); [discriminate|].
+      unfold find_req. cbn [find]. rewrite Hid, N.eqb_refl. reflexivity. }
+    destruct (lmoves_find _ _ _ _ L F) as [q' [F' _]]. rewrite is_live_find, F'. reflexivity.
+Qed.
+
+(* every zone entry fits its capacity afterwards: the zones in use in particular *)
+Theorem allocate_fit s r s' res : Inv s -> Fit s -> sizes_nonneg (live s) -> 0 <= r_size r ->
+  allocate ns ex fx s r = (s', res) -> rs_kind res = KOk -> Fit s' /\ sizes_nonneg (live s').
+Proof.
+  intros I FT SZ Hr H K.
+  destruct (allocate_ok_view _ _ _ _ I H K) as [r1 [st [Hid [Hsz [_ [_ [Hl [Hn [[[ND' L] [S3 [C3 [I3 O3]]] _] [R [-> _]]]]]]]]]]].
+  assert (sizes_nonneg (live s ++ [r1])) as SZ1.
+  { intros q Hq. apply in_app_or in Hq as [Hq|[<-|[]]]; [apply SZ; exact Hq|lia]. }
+  split; [|cbn [live]; eapply lmoves_sizes; eauto].
+  intros z Hz. cbn [live zkeys] in *. apply cleanup_in in Hz as [Hz _].
+  destruct (mnz (N.land z (r_zone r1))) eqn:M.
+  - apply R; [exact Hz|right; exact M].
+  - destruct (O3 z Hz) as [Hz0|Hm]; [|congruence].
+    specialize (FT z Hz0). unfold zfree in *.
+    pose proof (usage_lmoves _ _ z L SZ1) as U. rewrite usage_app in U.
+    assert (usage [r1] z = 0) as U1.
+    { unfold usage. cbn [fold_right]. destruct (msub (r_zone r1) z) eqn:X; [|lia].
+      exfalso. unfold mnz in M. apply negb_false_iff in M. apply N.eqb_eq in M.
+      unfold msub in X. apply N.eqb_eq in X. rewrite N.land_comm in M. rewrite M in X.
+      apply (mnz_land_nz _ _ Hn). symmetry. exact X. }
+    lia.
+Qed.
+
+(* the reported updates are exactly the allocations whose zone changed, with their new zones *)
+Theorem allocate_updates s r s' res : Inv s -> allocate ns ex fx s r = (s', res) -> rs_kind res = KOk ->
+  NoDup (keys (rs_upd res)) /\
+  forall id z, In (id, z) (rs_upd res) <->
+    (id <> r_id r /\ is_live id (live s) = true /\ zone_of id (live s') = z /\ zone_of id (live s') <> zone_of id (live s)).
+Proof.
+  intros I H K. destruct (allocate_ok_view _ _ _ _ I H K) as [r1 [st [Hid [_ [_ [_ [Hl [Hn [[[ND' L] _ [N1 [N2 J]]] [_ [-> [_ ->]]]]]]]]]]]].
+  cbn [live]. split.
+  - unfold keys, al_del. clear -N1. unfold keys in N1. induction (o_upd st) as [|[k v] u IH]; [constructor|].
+    cbn [map fst] in N1. inversion N1 as [|? ? Hn ND]; subst. cbn [filter fst].
+    destruct (negb (k =? r_id r)%N); [|apply IH; exact ND].
+    cbn [map fst]. constructor; [|apply IH; exact ND].
+    intros Hin. apply Hn. apply in_map_iff in Hin as [p [E Hp]]. apply filter_In in Hp as [Hp _].
+    apply in_map_iff. exists p. auto.
+  - intros id z. rewrite al_del_in. specialize (J id). split.
+    + intros [Hin Hne]. apply (al_in_get _ _ _ N1) in Hin. split; [exact Hne|].
+      destruct (al_get id (o_rev st)) as [zr|]; [|destruct J as [J1 _]; congruence].
+      destruct J as [J1 [J2 [J3 [J4 J5]]]]. rewrite Hin in J1. injection J1 as ->.
+      split; [|split; [reflexivity|congruence]].
+      (* id is live afterwards, ids are those of live s plus the requester, id is not the requester *)
+      apply is_live_true in J5. rewrite (lmoves_ids _ _ L), map_app in J5. apply in_app_or in J5 as [J5|[J5|[]]].
+      * apply in_map_iff in J5 as [q [Eq Hq]]. rewrite is_live_find.
+        destruct (find_req id (live s)) eqn:F; [reflexivity|]. exfalso. eapply find_req_none; eauto.
+      * congruence.
+    + intros [Hne [Hlive [Hz Hch]]]. split; [|exact Hne].
+      destruct (al_get id (o_rev st)) as [zr|]; [|destruct J as [_ J2]; congruence].
+      destruct J as [J1 _]. rewrite Hz in J1. apply al_get_in. exact J1.
 Qed.
 
 End Alloc.
